@@ -213,14 +213,20 @@ func C19(c *fw.Ctx) {
 	c.Bound("stdin_contents", len(stdins))
 	devBound := 2
 	for k := 0; k <= 3; k++ {
-		for pm := 0; pm < 1<<k; pm++ {
+		// pm: which calls carry a prompt; nm: which calls use the Latin name of the built-in
+		for pmnm := 0; pmnm < 1<<(2*k); pmnm++ {
+			pm, nm := pmnm&(1<<k-1), pmnm>>k
 			var prog []*model.N
 			for i := 0; i < k; i++ {
 				var call *model.N
+				name := model.BiInput
+				if nm&(1<<i) != 0 {
+					name = model.BiInputLatin
+				}
 				if pm&(1<<i) != 0 {
-					call = model.CallN(model.BiInput, model.Str(fmt.Sprintf("P%d>", i)))
+					call = model.CallN(name, model.Str(fmt.Sprintf("P%d>", i)))
 				} else {
-					call = model.CallN(model.BiInput)
+					call = model.CallN(name)
 				}
 				v := fmt.Sprintf("v%d", i)
 				prog = append(prog, model.Var(v, call), model.Print(model.Bin("+", model.Bin("+", model.Str("<"), model.Id(v)), model.Str(">"))))
